@@ -30,10 +30,10 @@ class _Duct:
         pass
 
 
-def _rodded(n_duct):
-    if n_duct not in _FIX:
-        _FIX[n_duct] = fixtures.make_rodded(2, n_duct, byp_ff=0.05 if n_duct > 1 else None)
-    return copy.copy(_FIX[n_duct])
+def _rodded(n_duct, n_ring=2):
+    if (n_duct, n_ring) not in _FIX:
+        _FIX[(n_duct, n_ring)] = fixtures.make_rodded(n_ring, n_duct, byp_ff=0.05 if n_duct > 1 else None)
+    return copy.copy(_FIX[(n_duct, n_ring)])
 
 
 def _vec(env, name, n, lo=None, hi=None):
@@ -60,7 +60,7 @@ def body_rodded(env):
     gap_len2 = env.params['gap_len2']
     power = env.params['power']          # 'none' | 'sym' | 'zero-order'
     with env.patch(MODS):
-        r = _rodded(nduct)
+        r = _rodded(nduct, env.params.get('n_ring', 2))
         nsc = r.subchannel.n_sc['coolant']['total']
         nint = r.subchannel.n_sc['coolant']['interior']
         nd = r.subchannel.n_sc['duct']['total']
@@ -192,6 +192,12 @@ def instances(tier):
                         nduct, adiabatic, 'edge/corner pair' if gap_len2 else 'per cell', power), body=body_rodded,
                         params={'n_duct': nduct, 'adiabatic': adiabatic, 'gap_len2': gap_len2, 'power': power},
                         timeout_ms=120000))
+    # more than one edge cell per side (the type index pattern of the wall cells changes with the ring count)
+    for nring, nduct in (((3, 2),) if tier == 'quick' else ((3, 1), (3, 2), (3, 3), (4, 2), (6, 1))):
+        for power in ('none', 'sym'):
+            inst.append(dict(label='rodded[rings=%d,ducts=%d,adiabatic=False,htc_gap=edge/corner pair,power=%s]' % (nring, nduct, power),
+                             body=body_rodded, params={'n_duct': nduct, 'n_ring': nring, 'adiabatic': False, 'gap_len2': True, 'power': power},
+                             timeout_ms=120000))
     for model in ('simple', '6node'):
         for adiabatic in (False, True):
             inst.append(dict(label='unrodded[%s,adiabatic=%s]' % (model, adiabatic), body=body_unrodded,
@@ -208,9 +214,9 @@ def main():
                      'with every temperature, film coefficient, conductivity, wall thickness and wall power symbolic; for each '
                      'wall cell the two flux boundary conditions, the mid-wall closed form and (unheated) the ordering between the '
                      'adjacent coolant temperatures are SMT queries.'),
-        bounds={'rings': 2, 'ducts': '1..3', 'cells': 'all wall cells of the bundle (12) / 6 for low-fidelity regions',
+        bounds={'rings': '2, and 3 with two ducts (quick) / 2..4 and 6', 'ducts': '1..3', 'cells': 'all wall cells of the bundle (12) / 6 for low-fidelity regions',
                 'gap htc': 'edge/corner pair and per-cell arrays', 'wall power': 'none and arbitrary >= 0'},
-        outside=['ring counts > 2 (the per-cell formulas do not depend on the ring count; only the index maps do)',
+        outside=['ring counts beyond the listed ones (the per-cell formulas do not depend on the ring count; only the index maps do)',
                  'temperature-dependent duct conductivity (one value per duct and step, as the code uses)'],
         level_assumptions=['film coefficients, conductivity, thickness > 0; wall power >= 0'])
 
